@@ -280,6 +280,14 @@ func (in *inst) calls(root ast.Node) {
 					case "encoding/gob.NewDecoder":
 						c.Args[0] = call("R", c.Args[0])
 						in.counts["io:gob-reader"]++
+					case "bufio.NewWriter", "bufio.NewWriterSize":
+						// the file operations a buffered writer makes happen inside the standard library: the
+						// writer underneath is wrapped, so that each of them is a step (and a fault site) all the same
+						c.Args[0] = call("W", c.Args[0])
+						in.counts["io:bufio-writer"]++
+					case "bufio.NewReader", "bufio.NewReaderSize":
+						c.Args[0] = call("R", c.Args[0])
+						in.counts["io:bufio-reader"]++
 					}
 					if pn.Imported().Path() == "time" && (f.Sel.Name == "Sleep" || f.Sel.Name == "After" || f.Sel.Name == "Tick" || f.Sel.Name == "NewTimer" || f.Sel.Name == "AfterFunc" || f.Sel.Name == "NewTicker") {
 						in.uninstrumented(c.Pos(), "time."+f.Sel.Name)
